@@ -20,6 +20,7 @@ import EaselModel.Weights.PrefLemmas
 import EaselModel.Weights.ConsLemmas
 import EaselModel.Weights.SampleLemmas
 import EaselModel.Weights.Transfer
+import EaselModel.Weights.TieRule
 /-! # C16 — sequence weights, identity filtering and clustering follow their definitions
 
   Theorems about the `ℚ` instance of the executable model `EaselModel.Weights` (the `Float` instance of the same
@@ -1077,5 +1078,45 @@ example : (1 : Nat) ∉ idFilterAdv (α := ℚ) Abc.amino { minspan := 0, rule :
 example : (Link.upgma).isLinkage = false ∧ (Link.wpgma).isLinkage = false ∧ (Link.single).isLinkage = true := by decide
 example : unalignedVisited [[65], [65, 67], [71]] (visitedPairs 3 10 []) = true ∧
     unalignedVisited [[65], [65, 67], [71]] (visitedPairs 3 1 [(0, 2)]) = false := by decide
+
+/-! ## round 6: can a better TIE RULE in `cluster_engine` repair the two GSC findings? No.
+
+  `gscWith pick` = `esl_msaweight_GSC` with the minimum search of `cluster_engine` replaced by `pick`, ANY function of the
+  whole engine state (distance matrix, cluster sizes, heights, position table, tree so far) that returns a pair of matrix
+  positions at minimum distance (`TieRule`). -/
+
+/-- the family contains the code: the first-minimum rule is a tie rule and `gscWith firstMin` is `esl_msaweight_GSC` -/
+theorem gsc_tieRule_family_contains_code (m : Mode) (rows : List Row) (hne : rows ≠ []) :
+    TieRule firstMin ∧ gscWith firstMin m rows = gsc (α := ℚ) m rows :=
+  ⟨firstMin_tieRule, gscWith_firstMin m rows hne⟩
+
+/-- where no pass of UPGMA ties, every tie rule returns the weights of the code (so the positive theorems
+    `gsc_relisting_tie_free`, `gsc_identical_rows_tie_free` are about every rule, and a rule can matter at ties only) -/
+theorem gsc_tieRule_irrelevant_without_ties (pick : KState ℚ → Nat × Nat) (hp : TieRule pick) (m : Mode)
+    (rows : List Row) (hne : rows ≠ []) (htf : TieFree m rows) : gscWith pick m rows = gsc (α := ℚ) m rows :=
+  gscWith_eq_gsc_of_tieFree pick hp m rows hne htf
+
+/-- NO tie rule makes the GSC weights follow the rows under relisting, not even on alignments whose rows are pairwise
+    different: for every rule, `AAAA, AABB, BBBB` listed in reverse does not get the reversed weights (the reversed
+    alignment has the same distance matrix entry for entry, so a deterministic rule returns the same weight vector — either
+    15/16, 15/16, 9/8 or 9/8, 15/16, 15/16 — while the outer rows have exchanged places). A repair of the findings
+    `C16:gsc:*` therefore cannot be a tie-breaking rule for pairwise joins (by taxon index, cluster size, …); it needs
+    simultaneous joins of all tied clusters, i.e. another clustering algorithm and a non-binary tree. -/
+theorem gsc_no_tieRule_is_relisting_invariant :
+    ¬ ∃ pick : KState ℚ → Nat × Nat, TieRule pick ∧
+      ∀ (m : Mode) (rows : List Row) (p : List Nat), p.Perm (List.range rows.length) →
+        (∀ i j, i < j → j < rows.length → rows.getD i [] ≠ rows.getD j []) →
+        gscWith pick m (p.map fun i => rows.getD i []) = p.map (fun i => (gscWith pick m rows).getD i 0) := by
+  rintro ⟨pick, hp, h⟩
+  exact tieRule_fails_on_witness pick hp (h Mode.text tw0 [2, 1, 0] (by decide) tw0_distinct)
+
+/-- non-vacuity of `TieRule` beyond the code's rule: "last minimum" differs from `firstMin` on the witness state -/
+example : MinPair tS0 (0, 1) ∧ MinPair tS0 (1, 2) ∧ firstMin tS0 = (0, 1) := by
+  refine ⟨⟨by decide, by decide +kernel, ?_⟩, ⟨by decide, by decide +kernel, ?_⟩, by decide +kernel⟩ <;>
+  · intro r c hrc hc
+    have hs : tS0.act.size = 3 := by decide +kernel
+    rw [hs] at hc
+    have : (r = 0 ∧ c = 1) ∨ (r = 0 ∧ c = 2) ∨ (r = 1 ∧ c = 2) := by omega
+    rcases this with ⟨rfl, rfl⟩ | ⟨rfl, rfl⟩ | ⟨rfl, rfl⟩ <;> decide +kernel
 
 end EaselModel.Props.C16
